@@ -1,12 +1,16 @@
 (* Proof obligations over facts regenerated from /repo on every check (Generated/SourceFacts.v,
-   written by harness/cmd/facts).  Topic: ctx_shadow.  When an edit of the sources changes a fact, the
-   lemma below stops compiling; the checks of the properties that depend on this topic then report
+   written by harness/cmd/facts).  Topic: ctx_shadow.  The facts are semantic summaries (orders, literal
+   sets, capacity classes, parent classes of contexts, lock events per path), so a behaviour-
+   preserving rewrite regenerates the same facts; when an edit changes what the theorems rest on,
+   the lemma below stops compiling, the checks of the properties that depend on this topic report
    the broken obligation by name and search for a failing input. *)
 From Coq Require Import List String ZArith Bool.
 Import ListNotations.
 Require Import Verif.Common.LockEv Verif.Generated.SourceFacts.
+
 Open Scope string_scope.
 
-(* the shadow context is derived from the background context, not from the client's *)
-Lemma ctx_shadow_ok : ctx_shadow = ["WithTimeout(context.Background(), timeout)"].
+(* the only context derived in proxy/shadow.go is a timeout context on the background context,
+   not on the client's *)
+Lemma ctx_shadow_ok : ctx_shadow = [("WithTimeout", "background")].
 Proof. reflexivity. Qed.
